@@ -851,6 +851,31 @@ func runC20(r *Run) {
 				// declared inside the outer loop (fresh per group)
 				okDecl = listObj.Pos() > outer.Body.Pos() && listObj.Pos() < inner.Pos()
 			}
+			// every variable that the result loop fills and the rest of the per-task step reads (task id, task
+			// address, AVS address, powers) is fresh for each task
+			leak := ""
+			ast.Inspect(inner.Body, func(n ast.Node) bool {
+				as, ok := n.(*ast.AssignStmt)
+				if !ok {
+					return true
+				}
+				for _, l := range as.Lhs {
+					id, isID := stripParens(l).(*ast.Ident)
+					if !isID {
+						continue
+					}
+					o := v.objOf(id)
+					if o == nil || o.Pos() >= outer.Body.Pos() && o.Pos() <= outer.Body.End() {
+						continue
+					}
+					// declared outside the per-task loop and assigned inside the result loop
+					if o.Pos() > v.Decl.Body.Pos() && o.Pos() < outer.Pos() {
+						leak = o.Name()
+					}
+				}
+				return true
+			})
+			r.check(leak == "", "C20.R6", "hook|per-task-variables", v.pos(outer), "what is collected from one task's results does not carry over to the next task", "variable "+leak+" is declared outside the per-task loop and filled inside the result loop: the second task of an epoch is booked with the first task's identity / powers")
 			r.check(okDecl, "C20.R6", "hook|signers-per-group", v.pos(outer), "the signer list is fresh for each task", "the signer list is not declared inside the per-task loop (signers of one task leak into the next)")
 			var taskInfoObj types.Object
 			var setC *ast.CallExpr
